@@ -4,7 +4,8 @@ from harness.common import *  # noqa
 
 def _setup(w, op, h0, sp, s0, s1):
     """-> (pre, new, deleted, run): objects that must survive, objects being added, keys being deleted, the operation."""
-    w.set_pack(0, [('junk', 0, h0), ('obj', 2, sp), ('junk', 1, 1)])
+    if op != 'repack':
+        w.set_pack(0, [('junk', 0, h0), ('obj', 2, sp), ('junk', 1, 1)])
     pre, new, deleted = [(2, sp)], [], []
     if op in ('pack', 'pack_clean'):
         w.put_loose(0, s0)
@@ -34,7 +35,7 @@ def _setup(w, op, h0, sp, s0, s1):
             c.add_streamed_object(w.stream(1, s1))
             c.add_streamed_object(w.stream(0, s0))
 
-    else:  # delete: obj0 loose is deleted, obj2 (packed) too; obj1 (loose) and obj3 (packed) stay
+    elif op == 'delete':  # obj0 loose is deleted, obj2 (packed) too; obj1 (loose) and obj3 (packed) stay
         w.put_loose(0, s0)
         w.put_loose(1, s1)
         pre = [(1, s1)]
@@ -42,6 +43,39 @@ def _setup(w, op, h0, sp, s0, s1):
 
         def run(c):
             c.delete_objects([w.key(0, s0), w.key(2, sp)])
+
+    elif op == 'repack':  # pack 0 = hole, obj2, hole, obj0; obj1 loose
+        w.set_pack(0, [('junk', 0, h0), ('obj', 2, sp), ('junk', 1, 1), ('obj', 0, s0)])
+        w.put_loose(1, s1)
+        pre = [(2, sp), (0, s0), (1, s1)]
+
+        def run(c):
+            c.repack()
+
+    elif op in ('pack_nofsync', 'direct_nofsync'):  # do_fsync=False: process-crash safety must not depend on the sync
+        if op == 'pack_nofsync':
+            w.put_loose(0, s0)
+            w.put_loose(1, s1)
+            pre += [(0, s0), (1, s1)]
+
+            def run(c):
+                c.pack_all_loose(do_fsync=False)
+
+        else:
+            new = [(0, s0), (1, s1)]
+
+            def run(c):
+                c.add_streamed_objects_to_pack([w.stream(0, s0), w.stream(2, sp), w.stream(1, s1)], do_fsync=False)
+
+    else:  # import: obj0 loose and obj1 packed in a second container; the destination holds obj2
+        src = make_world(10**9, parent=w, name='src')
+        src.put_loose(0, s0)
+        src.set_pack(0, [('junk', 0, 1), ('obj', 1, s1)])
+        w.src = src
+        new = [(0, s0), (1, s1)]
+
+        def run(c):
+            c.import_objects([src.key(0, s0), src.key(1, s1), w.key(2, sp)], src.c)
 
     return pre, new, deleted, run
 
@@ -70,6 +104,8 @@ def _crash(op, durable, h0, sp, s0, s1, target, crash_at):
             return True  # the operation ended before the crash point
         return _image_ok(w.box[0], w, pre, new, deleted)
     finally:
+        if getattr(w, 'src', None) is not None:
+            w.src.cleanup()
         w.cleanup()
 
 
@@ -85,6 +121,8 @@ def _reached(op, h0, sp, s0, s1, target, crash_at):
             pass
         return len(w.box) == 0
     finally:
+        if getattr(w, 'src', None) is not None:
+            w.src.cleanup()
         w.cleanup()
 
 
@@ -99,6 +137,8 @@ def _monitor(op, h0, sp, s0, s1, target):
         w.finish_monitor()
         return w.monitor_ok
     finally:
+        if getattr(w, 'src', None) is not None:
+            w.src.cleanup()
         w.cleanup()
 
 
@@ -114,6 +154,8 @@ def _fault(op, h0, sp, s0, s1, target, fault_at):
         w.install_fault(-1)
         if not _image_ok(w.image(), w, pre, new, deleted):
             return False
+        if op == 'repack':
+            return True  # an interrupted repack needs manual repair: no rerun is demanded (C17)
         # once the fault clears: stale lock removed, a new handle reruns the operation to its normal result
         w.c.close()
         w.remove_locks()
@@ -121,10 +163,12 @@ def _fault(op, h0, sp, s0, s1, target, fault_at):
         run(c2)
         return inv_ok(w.image(), w, objs_map(w, pre + new), exact=True)
     finally:
+        if getattr(w, 'src', None) is not None:
+            w.src.cleanup()
         w.cleanup()
 
 
-OPS = ('pack', 'pack_clean', 'direct', 'direct_noholes', 'loose', 'delete')
+from harness.slices import OPS  # noqa: E402,F401
 
 
 def _steps(op, h0, sp, s0, s1, target):
@@ -136,4 +180,6 @@ def _steps(op, h0, sp, s0, s1, target):
         run(w.c)
         return w.fs.step if w.kind == 'model' else w.step
     finally:
+        if getattr(w, 'src', None) is not None:
+            w.src.cleanup()
         w.cleanup()
